@@ -115,6 +115,26 @@ pub fn run(ctx: &Ctx, ev: &mut Ev) {
         for a in [0x81u8, 0x84, 0x90, 0xE3, 0xFE] { for b in bset { if !ev.mine() { continue; } for d in bset { for e in bset { c.check(ev, GB18030, &[a, b, d, e], true); for x in bset { c.check(ev, GB18030, &[a, b, d, e, x], true); if th { c.check(ev, GB18030, &[0x41, a, b, d, e, x, 0x30], true); } } } } } }
         if th { ev.exhaustive("all 1,587,600 well-formed gb18030 four-byte strings"); }
     }
+    // (f) huge streams: lengths on both sides of 2^16 (thorough: 2^17, 2^20) - beyond every 16-bit counter - made of valid
+    // segments with a few defects planted next to the 2^16 boundary and at the very end
+    if ctx.want("huge") && !tiny {
+        let mut r = ctx.fixed_rng(17);
+        let sizes: Vec<usize> = if th { vec![65_535, 65_536, 65_537, 70_001, 131_073, (1 << 20) + 1] } else { vec![65_535, 65_536, 65_537, 70_001] };
+        for &enc in ALL.iter() { for &n in sizes.iter() {
+            if !ev.mine() { continue; }
+            let mut stream: Vec<u8> = Vec::with_capacity(n + 64);
+            let mut tries = 0;
+            while stream.len() < n {
+                let seg = random_stream(&mut r, enc, 6); tries += 1;
+                if seg.is_empty() || (tries < 4000 && M.decode(enc.name(), &seg).iter().any(|i| matches!(i, Item::E(..)))) { if tries >= 4000 { stream.push(b'a'); } continue; }
+                stream.extend_from_slice(&seg);
+            }
+            stream.truncate(n);
+            c.check(ev, enc, &stream, true);
+            for p in [65_534usize, 65_535, 65_536, n - 1] { if p < n { stream[p] = 0xFF; } }
+            c.check(ev, enc, &stream, true);
+        } }
+    }
     // (e) seeded long grammar-based streams, every start alignment
     if ctx.want("long") {
         let mut r = ctx.rng(1);
